@@ -65,7 +65,7 @@ COND_OPS = {"Watch": (">", "<", "=", "==", "!=", ">=", "<="), "Alarm": (">", "<"
             "Simulate": ("=",)}
 TAGS = ("X", "Tag Name", "T1")
 SPACINGS = ("", " ", "  ")
-NUM_VALUES = ("1", "1.5", "-2", ".5", "1e3", "+1", "1.", "1E3", "1e+3", "1e-3", "2.5e+16", "-1.5e-05", ".5E+2")     # the float grammar: sign, mantissa forms, exponent with e|E and +|-|no sign
+NUM_VALUES = ("1", "1.5", "-2", ".5", "12", "0.3", "23", "-1.2", "2", "3", "1e3", "+1", "1.", "1E3", "1e+3", "1e-3", "2.5e+16", "-1.5e-05", ".5E+2")     # the float grammar: sign, mantissa forms, exponent with e|E and +|-|no sign
 TEXT_VALUES = ("abc", "a b", "V12", "A2b", "x3")      # also text that ends in digits or digit+letters: still no unit
 QUICK_CONTEXTS = ((0, None, None), (4, "1.5", (" ", " ", "c d")))
 
